@@ -101,6 +101,21 @@ def stmt_failure(desc, frame, peaks, v, offset, method, upsample=False):
                   close(o[3], base[3], 1e-3, sc, 'offset %s: elevations' % offset)):
             if f:
                 return f
+    # offset on unsigned-integer frames whose darkest pixel is exactly 0 (raw counting-detector data): min - 1 must not wrap
+    fi = frame - frame.min()
+    if float(fi.max()) + offset < 2 ** 32 - 1 and np.array_equal(fi, np.rint(fi)):
+        dt = np.uint16 if float(fi.max()) + offset < 65535 else np.uint32
+        bi = run(pattern, fi.astype(dt), peaks)
+        oi = run(pattern, (fi + np.float32(offset)).astype(dt), peaks)
+        if np.array_equal(oi[0], bi[0]):
+            sci = float(np.abs(np.nan_to_num(bi[2])).max()) + 1.0
+            for f in (close(oi[1], bi[1], 1e-3, 1.0, 'offset %s on a %s frame with minimum 0: refined' % (offset, np.dtype(dt).name)),
+                      close(oi[2], bi[2], 1e-3, sci, 'offset %s on a %s frame with minimum 0: heights' % (offset, np.dtype(dt).name)),
+                      close(oi[3], bi[3], 1e-3, sci, 'offset %s on a %s frame with minimum 0: elevations' % (offset, np.dtype(dt).name))):
+                if f:
+                    return f
+        elif not np.isfinite(bi[2]).all() or not np.isfinite(oi[2]).all():
+            return 'offset %s on a %s frame with minimum 0: non-finite heights %s vs %s' % (offset, np.dtype(dt).name, bi[2].tolist(), oi[2].tolist())
     return None
 
 
@@ -123,7 +138,7 @@ def replay(body):
 def run(ctx):
     rng = ctx.rng
     ctx.check_theorems()
-    ctx.check_generated(['crop', 'eval'])
+    ctx.check_generated(['crop', 'eval', 'k'])
     # (K) model = implementation on translated pairs (small frames)
     items = []
     for k in range(ctx.n(8, 50)):
